@@ -462,9 +462,12 @@ def run_standard(P, tier, seed):
                     # the harness has already evaluated the property predicate on
                     # every case; those failures are reported above with inputs.
                     found = bool(P.get("found_in_show") and P["found_in_show"](shows))
-                    R.violation(P.get("correspondence_key", "correspondence") if found else "correspondence",
+                    ckey = P.get("correspondence_key", "correspondence")
+                    if callable(ckey):
+                        ckey = ckey(shows)
+                    R.violation(ckey if found else "correspondence",
                                 ("a schedule of the model in which the property fails was found (see model_outputs: "
-                                 "(first job, second job, schedule)); " if found else "") +
+                                 "Unordered first-job second-job schedule / Stuck rejected-ids schedule); " if found else "") +
                                 f"model and implementation disagree on "
                                 f"{len(failing)} of {len(coq_cases)} cases, e.g. "
                                 + json.dumps({k: fc[0][k] for k in fc[0] if k not in ('coq', 'show', 'type')})[:400],
